@@ -5,7 +5,7 @@ rm -rf /tmp/sim-$P && mkdir -p /tmp/sim-$P && cp -r /verif/sim/{Cargo.toml,Cargo
 sed -i "s#\"/repo#\"$WT#g" /tmp/sim-$P/harness/Cargo.toml
 export CARGO_NET_OFFLINE=true CARGO_TARGET_DIR=/tmp/sim-$P-target LINFA_REPO=$WT VERIF_ROOT=/tmp/sim-$P-root
 mkdir -p $VERIF_ROOT; cp /verif/known_findings.json /verif/properties.jsonl $VERIF_ROOT/
-cd $WT && git checkout -q -- . && git clean -fdq && git checkout -q --detach f6ea237
+cd $WT || exit 9; git checkout -q -- . && git clean -fdq && git checkout -q --detach f6ea237
 for i in 1 2 3 4; do
   cd $WT && git checkout -q -- . && git apply /verif/seeded/$PU-${SET:-m}$i/patch.diff || { echo "$PU-m$i: patch failed"; continue; }
   (cd /tmp/sim-$P && cargo build --release --offline 2>&1 | grep -E "^error" -A6 | head -20)
